@@ -251,6 +251,7 @@ class PanicSafety:
         back = set(g.back_edges())
         init = (0, 0, 0, 0, 0)      # holes, behind, pend, ahead, amp
         state = {0: init}
+        out_state = {}
         work = [0]
         findings = []
         seen_f = set()
@@ -288,15 +289,16 @@ class PanicSafety:
                 elif op == 'HOLE':
                     if behind:
                         behind = 0
+                    elif ahead:
+                        ahead = 0       # the cursor was moved past this slot just before it is read out
                     else:
                         holes = 1
                 elif op == 'WRITE':
                     pend = 1
                 elif op == 'UP':
-                    if pend:
+                    if pend or holes:
                         pend = 0
-                    elif holes:
-                        pass
+                        holes = 0       # the cursor/length moved past the consumed slot / over the initialised one
                     else:
                         ahead = 1
                 elif op == 'DOWN':
@@ -313,6 +315,7 @@ class PanicSafety:
                     ahead = 0
                     amp = 0
             ns = (holes, behind, pend, ahead, amp)
+            out_state[bi] = ns if bi not in out_state else (max(out_state[bi][0], ns[0]), 0, 0, 0, min(out_state[bi][4], ns[4]))
             for s in g.succ[bi]:
                 out = ns
                 if (bi, s) in back:
@@ -322,7 +325,12 @@ class PanicSafety:
                 if new != old:
                     state[s] = new
                     work.append(s)
-        return {'findings': findings, 'user_sites': nu, 'ops': sum(len(v) for v in ops.values()), 'guarded': self_guard or local_guard}
+        end_holes = []
+        for bi in g.returns():
+            st = out_state.get(bi)
+            if st and st[0] and not st[4] and not (self_guard or local_guard) and not is_drop:
+                end_holes.append(bi)
+        return {'end_holes': end_holes, 'findings': findings, 'user_sites': nu, 'ops': sum(len(v) for v in ops.values()), 'guarded': self_guard or local_guard}
 
 
 def root_param(lv):
